@@ -112,6 +112,15 @@ Proof.
   - apply IH; [lia|]. intros. apply HP. right. assumption.
 Qed.
 
+Lemma NoDup_app_intro {A} (a b : list A) :
+  NoDup a -> NoDup b -> (forall x, In x b -> In x a -> False) -> NoDup (a ++ b).
+Proof.
+  induction a as [|x a IH]; simpl; intros Ha Hb Hd; [exact Hb|].
+  inversion Ha as [|? ? Hn Ha']; subst. constructor.
+  - intro HI. apply in_app_or in HI. destruct HI as [HI|HI]; [contradiction|]. apply (Hd x HI). left. reflexivity.
+  - apply IH; [exact Ha'|exact Hb|]. intros y Hy1 Hy2. apply (Hd y Hy1). right. exact Hy2.
+Qed.
+
 (* ------------------------------------------------------------------ traverse *)
 Lemma traverse_Forall2 {A B} (f : A -> res B) (l : list A) (ys : list B) :
   Forall2 (fun x y => f x = Ok y) l ys -> traverse f l = Ok ys.
